@@ -41,6 +41,11 @@ func emit(c *Case) {
 	b, _ := json.Marshal(c)
 	outW.Write(b)
 	outW.WriteByte('\n')
+	// a case that reports a failure is written out at once: a later case that hangs the process
+	// (the driver kills it after its time limit) must not take the failing input with it
+	if c.Oracle != "" {
+		outW.Flush()
+	}
 }
 
 func hx(b []byte) string { return hex.EncodeToString(b) }
